@@ -119,6 +119,11 @@ pub enum EstStrategy {
     CLast { close: bool, fix_revealed: bool },
     /// plain run, then `n` atoms of the proof replaced by random valid atoms
     Mutate(u8, u64),
+    /// commitments to the lying messages, but every response computed as if the agreed messages
+    /// had been committed (each Schnorr equation is then false by c*(lie - agreed); only a verifier
+    /// that aggregates equations without independent weights can be satisfied, when the lies of
+    /// the two sub-proofs cancel)
+    AnswerAsAgreed,
 }
 
 pub struct EstAttempt {
@@ -147,6 +152,8 @@ pub struct EstForger {
     pub state: Sub<G1Projective>,
     pub close: Sub<G1Projective>,
     pub revealed: [Scalar; 4],
+    /// the messages an honest prover would have committed to for the agreed values
+    pub agreed: EstHidden,
 }
 
 const EST_REVEALED_SLOTS: [usize; 4] = [0, 1, 3, 4];
@@ -154,7 +161,7 @@ const EST_REVEALED_PATHS: [&str; 4] = ["channel_id_commitment_scalar", "close_ta
 
 impl EstForger {
     /// Commitment phase. `template` is the image of any honest establish proof (layout only).
-    pub fn commit(pk: &PkAtoms, template: &Image, hidden: &EstHidden, drop_link: Option<usize>, seed: u64) -> EstForger {
+    pub fn commit(pk: &PkAtoms, template: &Image, hidden: &EstHidden, agreed: &EstHidden, drop_link: Option<usize>, seed: u64) -> EstForger {
         let (h, gs) = pk.g1_params();
         let t1: Vec<Scalar> = (0..5).map(|i| rs(seed, 10 + i)).collect();
         let mut t2 = t1.clone();
@@ -165,7 +172,7 @@ impl EstForger {
         let state = Sub::new(h, gs.clone(), hidden.state.to_vec(), rs(seed, 1), t1, rs(seed, 2));
         let close = Sub::new(h, gs, hidden.close.to_vec(), rs(seed, 3), t2.clone(), rs(seed, 4));
         let revealed = [t2[0], t2[1], t2[3], t2[4]];
-        EstForger { template: template.clone(), state, close, revealed }
+        EstForger { template: template.clone(), state, close, revealed, agreed: agreed.clone() }
     }
 
     pub fn bytes(&self) -> Vec<u8> {
@@ -192,6 +199,12 @@ impl EstForger {
         };
         match strategy {
             EstStrategy::Plain | EstStrategy::DropLink(_) | EstStrategy::Mutate(..) => {}
+            EstStrategy::AnswerAsAgreed => {
+                for i in 0..5 {
+                    self.state.z[i] = *c * self.agreed.state[i] + self.state.t[i];
+                    self.close.z[i] = *c * self.agreed.close[i] + self.close.t[i];
+                }
+            }
             EstStrategy::RevealedLast => fix_revealed(self, true),
             EstStrategy::RevealedOne(i) => {
                 let i = (*i % 4) as usize;
@@ -280,6 +293,13 @@ pub struct PayHidden {
     /// digits claimed for the customer / merchant range constraint (each with a published signature)
     pub cb_digits: Vec<u64>,
     pub mb_digits: Vec<u64>,
+    /// added to the message of digit 0 (a "digit" outside 0..u-1, e.g. -1, shown with the published
+    /// signature on the unshifted digit): lets the digit sum hit an out-of-range value
+    pub cb_digit0_shift: Scalar,
+    pub mb_digit0_shift: Scalar,
+    /// replace digit proofs 0 and 1 by a jointly crafted cancelling pair aimed at this value
+    pub cb_cancel: Option<Scalar>,
+    pub mb_cancel: Option<Scalar>,
 }
 
 #[derive(Clone, Debug, Serialize, Deserialize, Hash, PartialEq, Eq)]
@@ -305,6 +325,9 @@ pub enum PayStrategy {
     /// commitment of one sub-proof chosen after the challenge
     CLast(PayField, bool),
     Mutate(u8, u64),
+    /// commitments to the lying messages, responses of the token / lock / state / close proofs
+    /// computed as if the truthful messages had been committed (see `EstStrategy::AnswerAsAgreed`)
+    AnswerAsAgreed,
 }
 
 pub struct PayPublic {
@@ -323,6 +346,8 @@ pub struct PayForger {
     pub mb_digits: Vec<(G1Projective, G1Projective, Sub<G2Projective>)>,
     pub revealed: [Scalar; 2],
     pub u: u64,
+    /// truthful messages (old, state, close, revoked lock) for the answer-as-agreed strategy
+    pub truthful: Option<([Scalar; 5], [Scalar; 5], [Scalar; 5], Scalar)>,
 }
 
 pub struct PayAttempt {
@@ -339,7 +364,42 @@ pub struct PayAttempt {
     pub openings_consistent: bool,
 }
 
-fn digit_subs(m: &Merchant, digits: &[u64], seed: u64, tag: u64) -> (Vec<(G1Projective, G1Projective, Sub<G2Projective>)>, Scalar) {
+pub type DigitProofs = Vec<(G1Projective, G1Projective, Sub<G2Projective>)>;
+
+/// Jointly crafted digit proofs 0 and 1 whose pairing errors cancel: with (h, S) the published
+/// signature on digit 0 and digit commitments to arbitrary field elements M0, M1
+/// (M0 + u*M1 = target), choose a0*M0 + a1*M1 = 0 and show sigma1_j = h^{a_j},
+/// sigma2_0 + sigma2_1 = S^{a0+a1} * h^{a0 r0 + a1 r1}. Each pairing equation is false, their
+/// unweighted product is the identity. The Schnorr parts are honest (openings known).
+pub fn cancelling_pair(range_img: &Image, subs: &mut DigitProofs, target: &Scalar, u: u64, seed: u64) {
+    if subs.len() < 2 {
+        return;
+    }
+    let h = G1Projective::from(range_img.g1("digit_signatures.0.sigma1"));
+    let s = G1Projective::from(range_img.g1("digit_signatures.0.sigma2"));
+    // value still encoded by digits 2.. (kept as they are)
+    let mut rest = Scalar::zero();
+    let mut upow = Scalar::from(u) * Scalar::from(u);
+    for (_, _, sub) in subs.iter().skip(2) {
+        rest += upow * sub.m[0];
+        upow *= Scalar::from(u);
+    }
+    let m1 = rand_nonzero_scalar(seed ^ 0xca1);
+    let m0 = *target - rest - Scalar::from(u) * m1;
+    let (a0, a1) = (m1, -m0);
+    for (j, mj) in [(0usize, m0), (1usize, m1)] {
+        let (hh, gs, r, t, tbf) = (subs[j].2.h, subs[j].2.gs.clone(), subs[j].2.r, subs[j].2.t.clone(), subs[j].2.tbf);
+        subs[j].2 = Sub::new(hh, gs, vec![mj], r, t, tbf);
+    }
+    let (r0, r1) = (subs[0].2.r, subs[1].2.r);
+    let split = G1Projective::generator() * rand_nonzero_scalar(seed ^ 0xca2);
+    subs[0].0 = h * a0;
+    subs[1].0 = h * a1;
+    subs[0].1 = split;
+    subs[1].1 = s * (a0 + a1) + h * (a0 * r0 + a1 * r1) - split;
+}
+
+pub fn digit_subs(m: &Merchant, digits: &[u64], d0_shift: &Scalar, seed: u64, tag: u64) -> (DigitProofs, Scalar) {
     let (h, gs) = m.range_pk.g2_params();
     let u = m.range_img.atoms.iter().filter(|a| a.path.starts_with("digit_signatures.") && a.path.ends_with(".sigma1")).count() as u64;
     let mut out = Vec::new();
@@ -356,7 +416,8 @@ fn digit_subs(m: &Merchant, digits: &[u64], seed: u64, tag: u64) -> (Vec<(G1Proj
         let b1 = s1 * rho;
         let b2 = (s2 + s1 * bf) * rho;
         let t = rs(seed, 102 + k);
-        let sub = Sub::new(h, gs.clone(), vec![Scalar::from(*d)], bf, vec![t], rs(seed, 103 + k));
+        let dm = if j == 0 { Scalar::from(*d) + *d0_shift } else { Scalar::from(*d) };
+        let sub = Sub::new(h, gs.clone(), vec![dm], bf, vec![t], rs(seed, 103 + k));
         cs += upow * t;
         upow *= Scalar::from(u);
         out.push((b1, b2, sub));
@@ -388,8 +449,14 @@ pub fn to_digits(mut v: u128, u: u64, l: usize) -> Vec<u64> {
 impl PayForger {
     pub fn commit(m: &Merchant, template: &Image, hidden: &PayHidden, seed: u64) -> PayForger {
         let u = m.range_img.atoms.iter().filter(|a| a.path.starts_with("digit_signatures.") && a.path.ends_with(".sigma1")).count() as u64;
-        let (cb_digits, cs_cb) = digit_subs(m, &hidden.cb_digits, seed, 1);
-        let (mb_digits, cs_mb) = digit_subs(m, &hidden.mb_digits, seed, 2);
+        let (mut cb_digits, cs_cb) = digit_subs(m, &hidden.cb_digits, &hidden.cb_digit0_shift, seed, 1);
+        let (mut mb_digits, cs_mb) = digit_subs(m, &hidden.mb_digits, &hidden.mb_digit0_shift, seed, 2);
+        if let Some(t) = &hidden.cb_cancel {
+            cancelling_pair(&m.range_img, &mut cb_digits, t, u, seed ^ 0xcb);
+        }
+        if let Some(t) = &hidden.mb_cancel {
+            cancelling_pair(&m.range_img, &mut mb_digits, t, u, seed ^ 0x3b);
+        }
         // revocation-lock commitment
         let t_r = rs(seed, 40);
         let rev = Sub::new(m.rev_h, vec![m.rev_g], vec![hidden.revoked_lock], rs(seed, 41), vec![t_r], rs(seed, 42));
@@ -408,7 +475,7 @@ impl PayForger {
         let t2 = vec![t1[0], rs(seed, 50), t1[2], t1[3], t1[4]];
         let state = Sub::new(h1, g1s.clone(), hidden.state.to_vec(), rs(seed, 51), t1, rs(seed, 52));
         let close = Sub::new(h1, g1s, hidden.close.to_vec(), rs(seed, 53), t2.clone(), rs(seed, 54));
-        PayForger { template: template.clone(), token_sig, token, rev, state, close, cb_digits, mb_digits, revealed: [tt[1], t2[1]], u }
+        PayForger { template: template.clone(), token_sig, token, rev, state, close, cb_digits, mb_digits, revealed: [tt[1], t2[1]], u, truthful: None }
     }
 
     pub fn bytes(&self) -> Vec<u8> {
@@ -457,6 +524,16 @@ impl PayForger {
         };
         match strategy {
             PayStrategy::Plain | PayStrategy::Mutate(..) => {}
+            PayStrategy::AnswerAsAgreed => {
+                if let Some((old, st, cl, lock)) = self.truthful {
+                    for i in 0..5 {
+                        self.token.z[i] = *c * old[i] + self.token.t[i];
+                        self.state.z[i] = *c * st[i] + self.state.t[i];
+                        self.close.z[i] = *c * cl[i] + self.close.t[i];
+                    }
+                    self.rev.z[0] = *c * lock + self.rev.t[0];
+                }
+            }
             PayStrategy::RevealedLast => fix_revealed(self),
             PayStrategy::RevealedOne(i) => {
                 if *i % 2 == 0 {
